@@ -341,6 +341,7 @@ func (w *World) mutatingSites(r *Report) []mutSite {
 
 type effOpts struct {
 	e1, e2, e3, e4, e5 bool
+	impl               bool // also check that the WriteFile implementation replaces the whole file
 }
 
 func ruleEFF(w *World, r *Report, o effOpts) {
@@ -361,7 +362,7 @@ func ruleEFF(w *World, r *Report, o effOpts) {
 		case isDefaultFileIOWrite(m.Fn):
 			nPrim++
 			if o.e1 {
-				if why := writeImplProblem(m); why != "" {
+				if why := writeImplProblem(m); why != "" && o.impl {
 					r.bad("EFF", k, w.ipos(m.Call), why)
 				} else {
 					r.ok("EFF", k, w.ipos(m.Call), "mutating primitive inside the fileIO implementation's WriteFile; replaces the whole file with the data parameter")
